@@ -10,6 +10,8 @@ Tie (this file): correspondence
       parser and taxonomy;
   (b) the helper functions of make_db.py / label_programs.py on synthetic inputs (random graphs with
       cycles and dangling targets, token-level bounded-exhaustive label names, random span lists).
+  (c') X3: `c11.db_json` — getJsonText (dbToJson (makeDb …)) (Model/JsonDb.lean; proved: C11_db_json_roundtrip,
+      C11_dbToJson_injective) byte for byte against get_json() on every generated directory, inside (a).
   (c) the JSON TEXT layer (Model/JsonText.lean; proved: C11_json_roundtrip, C11_compact_only_span_lists, …): the real
       get_json() text BYTE FOR BYTE against the model's compact (dumps2 data ++ "\n") on every generated directory and on
       adversarial data of the database shape (look-alike span lists in sources, control characters, non-ASCII, astral
@@ -538,6 +540,20 @@ def judge_dir(ctx, drv, files, root, out_dir, cleanup="full"):
         if dsql is None and sq["schema"] != ["label", "program", "taxon"]:
             dsql = f"sqlite schema {sq['schema']}"
     if d is None and dsql is None:
+        # X3: the text of the MODEL's database, getJsonText (dbToJson (makeDb …)), byte for byte against get_json()
+        # (key orders included, which the dictionary comparison above does not see); C11_db_json_roundtrip is about it.
+        mj = drv.call("c11.db_json", progs=progs)
+        if "exc" in mj:
+            return {"kind": "broken", "what": f"c11.db_json raises {mj['exc']} where c11.model returns", "model": mj}
+        ctx.dist("db-json.dbOk", bool(mj["ok"]))
+        if mj["ok"] and not mj["back"]:
+            return {"kind": "broken", "what": "db-json: loads (getJsonText (dbToJson db)) is not dbToJson db although dbOk db"}
+        mjt = uncps(mj["text"])
+        if mjt != res["json_text"]:
+            return {"kind": "broken",
+                    "what": "db-json: get_json() text differs from getJsonText (dbToJson (makeDb …)) although the "
+                            f"dictionaries agree (key order / dbToJson): {text_diff(res['json_text'], mjt)}"}
+        ctx.cov["db_json_texts_identical"] = ctx.cov.get("db_json_texts_identical", 0) + 1
         nontrivial = any(v for v in mobj["importations"].values())
         return {"kind": "ok", "nontrivial": nontrivial, "progs": progs, "model": mobj, "res": res}
     # disagreement: ask the specification
@@ -1273,6 +1289,11 @@ def run(ctx):
         "loads = json.loads on the grammar of the database) with the Python: streams json-text.directories (inside "
         "`directories`), json-text.adversarial, json-dumps, compact-texts, loads-texts — the round trip itself is PROVED "
         "(C11_json_roundtrip)",
+        "dbToJson (Model/JsonDb.lean) is the `data` of get_json — keys and their orders: `c11.db_json` = getJsonText (dbToJson "
+        "(makeDb …)) byte for byte against the real get_json() on every generated directory (inside `directories`); PROVED on "
+        "top of it: C11_db_json_roundtrip (the text parses back to dbToJson db when dbOk db), C11_db_json_ok "
+        "(J.ok (dbToJson db) = dbOk db), C11_dbToJson_injective; NOT proved: dbOk db from the strings of makeDb's inputs "
+        "(def C11_db_json_roundtrip_from_inputs : Prop)",
         "sqlite3 round trip (rows read back from the file written by write_sqlite are compared with the model's rows)",
         "stored source is verbatim the cleaned, hint-free source (the source is an input of the model; C12/C13 are about it)",
         "agreement of the R2 string matchers (import label regexes) with the regex engine: token-level bounded-exhaustive stream",
@@ -1293,6 +1314,8 @@ def run(ctx):
         "ignore_timestamps=True (the timestamp is an opaque input string of the model)",
         "C11_json_roundtrip: numbers are naturals (line numbers), no string holds a high surrogate code point directly "
         "followed by a low one (json.loads(json.dumps(s)) itself merges them; sources are decoded from UTF-8: no surrogate)",
+        "C11_db_json_roundtrip: dbOk db — every string of the DATABASE (not yet: of the inputs) is free of such a pair; "
+        "C11_dbToJson_injective: the stored spans are pairs of naturals (spansNat; Int.toNat in dbToJson)",
     ]
     if (not ctx.proofs_ok or ctx.broken) and not any(v.get("signature") is None for v in ctx.violations):
         ctx.violations.append({
